@@ -458,7 +458,7 @@ func defaultConsFamilies(quick bool, byzantine bool) ConsFamilies {
 			{W: WV(1, 1, 1, 1), Epoch: 1, MinSleep: 2, MaxSleep: 4, Tail: 4, DropInFirstRound: true, Rots: 2},
 			// a fork during the sleeping phase whose two siblings are roots of one frame and vote differently
 			// (one of them lacks one validator's tip), while an election is still open
-			{W: WV(1, 1, 1, 1), Epoch: 1, MinSleep: 2, MaxSleep: 2, Tail: 4, Forks: true, LateForks: true, LateForkMin: 2, LateForkMax: 2, OnlyLate: true, Rots: 1},
+			{W: WV(1, 1, 1, 1), Epoch: 1, MinSleep: 2, MaxSleep: 2, Tail: 4, Forks: true, LateForks: true, LateForkMin: 1, LateForkMax: 1, OnlyLate: true, Rots: 2},
 			// one forker with three branches: an orphan sibling plus a fork of the surviving branch, and three
 			// different first events (one of them never referenced)
 			{W: WV(1, 1, 1, 1), Epoch: 1, MinSleep: 2, MaxSleep: 2, Tail: 4, Forks: true, NestedForks: true, LateForkMin: 1, LateForkMax: 1, OnlyLate: true, Rots: 1},
